@@ -1,6 +1,7 @@
 """C15 - solver faults surface as errors: end-of-stream exits of read loops, Result discipline, unknown is never
 unsat, PDR verdict provenance, error-text extraction, abort inventory on the response path."""
 from ..tree import *  # noqa
+from .. import norm as psanorm
 from ..flow import Index
 from .. import callgraph, panics
 from .c02 import binding_of_pat, mname, BMC, FAIL, SUCCESS
@@ -194,22 +195,32 @@ def consumption(x, parents, f):
 
 def unknown(ctx, c):
     f = ctx.fn("patronus", CTXT + "read_sat_response")
+    # the dispatch on the trimmed reply: a match over string literals or a chain of `if answer == ".." { return .. }`
+    fdefs = local_defs(f)
+    subj = [i_ for i_, d in fdefs.items() if d[0] == "let" and "init" in d[1] and d[2].get("k") == "pbind"
+            and [m_[0] for m_ in chain(d[1]["init"])[1]] == ["trim"] and field_path(chain(d[1]["init"])[0]) and field_path(chain(d[1]["init"])[0])[2] == ["response"]]
+
+    def res_of(branch):
+        b = psanorm.result_value(branch)
+        if b.get("k") == "def" and "::CheckSatResponse::" in (b.get("path") or ""):
+            # result_value looks through Ok(..): only accept when the branch really yields Ok(<variant>)
+            return "Ok(%s)" % b["path"].split("::")[-1]
+        if b.get("k") == "ctor" and callee(b).endswith("Result::Err"):
+            return "Err"
+        return None
+    table = {}
     m = None
     for n in walk(f["body"]):
         if n.get("k") == "match" and any(alt.get("k") == "plit" and alt.get("lk") == "str" for a in n["arms"] for alt in pat_alts(a["pat"])):
             m = n
-    table = {}
     if m is not None:
         for a in m["arms"]:
-            b = peel(peel_block(a["body"]))
-            res = None
-            if b.get("k") == "ctor" and callee(b).endswith("Result::Ok"):
-                v = peel(b["args"][0])
-                res = "Ok(%s)" % (v.get("path") or "?").split("::")[-1]
-            elif b.get("k") == "ctor" and callee(b).endswith("Result::Err"):
-                res = "Err"
             for alt in pat_alts(a["pat"]):
-                table[alt.get("v") if alt.get("k") == "plit" else "_"] = res
+                table[alt.get("v") if alt.get("k") == "plit" else "_"] = res_of(a["body"]) if "guard" not in a else None
+    elif len(subj) == 1:
+        for lit, branch in psanorm.literal_dispatch(f["body"], subj[0]).items():
+            table[lit] = res_of(branch)
+        table["_"] = res_of(f["body"])
     ctx.inst("R15.3", "read_sat_response:table", table == {"sat": "Ok(Sat)", "unsat": "Ok(Unsat)", "_": "Err"}, f["span"],
              "read_sat_response must map exactly \"sat\"->Sat, \"unsat\"->Unsat and everything else (unknown, garbage, empty) to an error: %s" % table, sample=table)
     # (A) nobody fabricates Unknown
@@ -392,24 +403,48 @@ def error_text(ctx):
         why = "the tested and the stripped prefix differ: %s" % sorted(lits)
         # message provenance: first FromSolver in the error branch takes a string derived from the response via strip_* / trim
         e0 = errs[0]
-        msg = peel(e0["args"][1])
-        b, ms = chain(msg)
         defs = local_defs(f)
-        src = b
-        hops = 0
-        names = [m[0] for m in ms]
-        while src.get("k") == "local" and hops < 6:
-            init = simple_let_init(defs, src["id"])
-            if init is None:
-                d = defs.get(src["id"])
-                if d and d[0] == "letexpr":
-                    init = d[1]["init"]
+        names = []
+        sources = []
+
+        def prov(e, depth=0):
+            """collect the methods applied on the way from the reply to e, and the sources reached"""
+            if depth > 12:
+                sources.append("?")
+                return
+            oe = psanorm.opt_elim(e)
+            if oe is not None and oe["none"] is not None:
+                # unwrap_or / match { Some(x) => x, None => d }: both alternatives
+                prov(oe["scrut"], depth + 1)
+                names.append("unwrap_or")
+                prov(oe["none"], depth + 1)
+                if oe["some"] is not None and not (oe["bind"] is not None and is_local(psanorm.tail_value(oe["some"]), oe["bind"])):
+                    sources.append("?")
+                return
+            b, ms = chain(e)
+            names.extend(m_[0] for m_ in ms)
+            for m_ in ms:
+                for a_ in m_[1]:
+                    if peel(a_).get("k") not in ("lit",):
+                        prov(a_, depth + 1)
+            b = peel(b)
+            if b.get("k") == "local":
+                d = defs.get(b["id"])
+                if d and d[0] in ("let", "letexpr") and "init" in d[1]:
+                    prov(d[1]["init"], depth + 1)
+                elif d and d[0] == "arm":
+                    prov(d[1]["scrut"], depth + 1)
                 else:
-                    break
-            src, ms2 = chain(init)
-            names = [m[0] for m in ms2] + names
-            hops += 1
-        derived = show(src).endswith("self.response") or "response" in show(src)
+                    sources.append("?" + b["name"])
+            elif b.get("k") == "field":
+                fp = field_path(b)
+                sources.append(".".join(fp[2]) if fp and fp[0] == "self" else "?")
+            elif b.get("k") == "lit":
+                pass
+            else:
+                sources.append("?" + str(b.get("k")))
+        prov(e0["args"][1])
+        derived = bool(sources) and all(s_ == "response" for s_ in sources)
         okm = derived and all(nm in ("trim", "trim_start", "trim_end", "strip_prefix", "strip_suffix", "unwrap_or", "to_string", "to_owned", "trim_matches", "trim_start_matches", "trim_end_matches", "into") for nm in names)
         ok = ok and okm and n_idx == 0
         why = why if not okm else why
